@@ -79,3 +79,33 @@ def optimizer_cases() -> list[tuple[str, str | None, dict]]:
 @functools.lru_cache(None)
 def fixture_inputs(filename: str) -> list[tuple[str, str | None]]:
     return [(sql, meta.get("dialect") or None) for meta, sql, _ in _pairs(filename) if sql]
+
+
+@functools.lru_cache(None)
+def dialect_test_sql() -> list[tuple[str, str]]:
+    """(dialect, sql) for every string literal passed first to validate_identity / validate_all in
+    tests/dialects/test_<dialect>.py: the repository's own dialect-specific statements (COPY, CREATE ... WITH
+    options, hints, procedural bodies...), used as seed states for mutation, never as expected values."""
+    import ast
+    import glob
+
+    from sqlglot.dialects import DIALECTS
+
+    known = {d.lower() for d in DIALECTS}
+    out, seen = [], set()
+    for path in sorted(glob.glob(os.path.join(REPO, "tests", "dialects", "test_*.py"))):
+        d = os.path.basename(path)[5:-3]
+        if d not in known:
+            d = ""
+        try:
+            tree = ast.parse(open(path, encoding="utf-8").read())
+        except SyntaxError:
+            continue
+        for n in ast.walk(tree):
+            if (isinstance(n, ast.Call) and isinstance(n.func, ast.Attribute) and n.func.attr in ("validate_identity", "validate_all")
+                    and n.args and isinstance(n.args[0], ast.Constant) and isinstance(n.args[0].value, str)):
+                s = n.args[0].value.strip()
+                if s and (d, s) not in seen and len(s) <= 400:
+                    seen.add((d, s))
+                    out.append((d, s))
+    return out
